@@ -35,7 +35,7 @@ def buildMachine (layer : String) (toks : List String) : Option AnyMachine :=
       | none => Toy.cipher h.key h.bs
     let isSpec := layer == "spec"
     let bs := h.bs
-    let w := if h.w ≥ 100 then 1 else h.w
+    let w := if 101 ≤ h.w ∧ h.w ≤ 109 then 1 else h.w
     let mode := h.mode
     let iv := h.iv
     match h.family with
